@@ -40,6 +40,7 @@ TRUSTED_BASE = [
     "axioms: none declared by the development; per-theorem Print Assumptions output is recorded in this file",
     "specs (coq/Spec_*.v) as transcriptions of FIPS 180-4, RFC 2104/8018/5869/4226/6238/4648 and the documented contracts",
     "models (coq/Model_*.v) as descriptions of the C++; tied to /repo only by this differential correspondence (generator lib/props, drivers harness/*.cpp, ocaml/run.ml)",
+    "source tie (C01, C13-C15): lib/srcgen.py translates the SHA-2 tables, init values, word macros, schedule statement, round-loop body and the codec alphabets of /repo's current sources into Gen_Source.v (typing convention: everything at the unit's word type, see DESIGN.md section 4); coq_tie/Tie_Source.v re-proved against it on every run",
     "extraction with ExtrOcamlBasic only (bool, option, unit, list, prod, sumbool, sumor -> OCaml; andb/orb inlined); N, Z, positive, nat stay Coq datatypes; OCaml 4.13.1",
     "g++ 12.2 / libstdc++ used to build the drivers from /repo's working tree (flags as the project's own CMake build on this platform: -DHMAC_CPP_ENABLE_MLOCK, no HAVE_EXPLICIT_BZERO)",
 ]
